@@ -7,7 +7,7 @@ CONSTANTS
   DevManagedEmpty = TRUE
   DevPollMultiLen = TRUE
   Part = "stream"
-  Feat = {"vec", "msg", "zc"}
+  Feat = {"vec", "msg", "zc", "split"}
   Sizes = {0, 3}
   Caps = {0, 3}
   SockBuf = 2
